@@ -9,7 +9,7 @@ from hypothesis import strategies as st
 from .. import lib
 from ..gen import docs as D
 from ..ref import rfc6901 as P
-from ..run import Stats, hyp_run, mix
+from ..run import Stats, hyp_run, mix, rng_for
 from ..strict import canon, jtype, nodes, short
 
 import jsonpath
@@ -193,7 +193,7 @@ def t_random(seed, n):
 
     def body(x):
         doc, s = x
-        rng = random.Random(s)
+        rng = rng_for(s)
         stats.case()
         allnodes = list(nodes(doc))
         if len(allnodes) > 14:
